@@ -162,18 +162,24 @@ def run(chk: Check):
                    "a block index >= max_table_entries is refused (never read from beyond the table)",
                    expected=str(want_t), found=str(tab))
     if rets:
-        rv = R.expr(ctx, rets[-1].value, ctx.cfg.node_for(rets[-1]))
-        # value is JOIN{None | unpack(...)} ; the None alternative must be guarded by == 0xFFFFFFFF
-        assigns = [n for n in ast.walk(ctx.func) if isinstance(n, ast.Assign) and isinstance(n.value, ast.Constant) and n.value.value is None]
+        # decision by evaluation of the function's exits over the raw entry value: 0xFFFFFFFF (and only it) -> None
+        from ..rulelib import func_eval, func_outcomes
+
+        outs = func_outcomes(chk, ctx)
+        unp = [x for o in outs if o[3] is not None for x in S.walk(o[3]) if isinstance(x, tuple) and x and x[0] == "call" and x[1].endswith("unpack")]
         ok = None
-        if assigns:
-            conds = conds_sym(chk, ctx, assigns[0])
-            cs = cmp_subject(conds[-1][0]) if conds else None
-            if cs is not None:
-                tab = decision_on(conds, cs[0], (0, 1, 0xFFFFFFFE, 0xFFFFFFFF))
-                ok = tab == {0: False, 1: False, 0xFFFFFFFE: False, 0xFFFFFFFF: True}
+        found = {}
+        if unp:
+            subject = ("sub", unp[0], S.C(0))
+            bk = bat_cls.key
+            fixed = {("p", ctx.qual, 1): 0, R.self_attr(bk, "max_entries"): 10}
+            for v in (0, 1, 0x7FFFFFFF, 0xFFFFFFFE, 0xFFFFFFFF):
+                ov = dict(fixed)
+                ov[subject] = v
+                found[v] = func_eval(outs, S.Valuation(1, override=ov))
+            ok = all(found[v] == ("return", None if v == 0xFFFFFFFF else v) for v in found)
         chk.decide(ok, "K-CONST", "bat:unallocated-marker", rets[-1],
-                   "entry value 0xFFFFFFFF (and only it) is mapped to 'unallocated'")
+                   "entry value 0xFFFFFFFF (and only it) is mapped to 'unallocated'", found=str(found)[:300])
     _typestate(chk, ctx, "bat")
 
     # ---- DynamicDisk.read_sectors ---------------------------------------------------------------
